@@ -60,7 +60,7 @@ PROPS = {
         module="Anonymongo.Props.C15",
         theorems=["Anonymongo.C15_other_ns", "Anonymongo.C15_eager_iff", "Anonymongo.C15_key_rename", "Anonymongo.C15_siblings", "Anonymongo.C15_refs",
                   "Anonymongo.C15_values", "Anonymongo.C15_plan_collscan", "Anonymongo.C15_plan_instances", "Anonymongo.C15_plan_def", "Anonymongo.C15_plan_consistent",
-                  "Anonymongo.C15_plan_general", "Anonymongo.redactIndexField_member", "Anonymongo.redactIxscans_no_I"],
+                  "Anonymongo.C15_plan_general", "Anonymongo.redactIndexField_member", "Anonymongo.redactIxscans_no_I", "Anonymongo.C15_bare_core_keys"],
         extra_modules=["Anonymongo.Props.C15b"],
         corr=["line", "misc", "sweep", "arb"],
         statement="a line whose attr.ns no configured path prefixes is redacted exactly as without the flag; the mode is on for every command document of a gated line iff some path is a prefix of attr.ns; with the mode on the query walker renames a non-operator key to hashName key and keeps operator keys, one output member per input member in order; a '$field' reference that is not an operator name becomes hashName field - the same pseudonym as the key - in the query walker, the array walker and as a direct value in the stage walker; values that are not '$...' strings are redacted as without the flag; plan summary: COLLSCAN unchanged, each index key rewritten where it stands, with the same function the filter keys go through - GENERAL (C15_plan_general): for an index scan over ANY number of well-formed members (spaces, key, spaces, colon, direction) every key is replaced where it stands by its OWN pseudonym whatever the other keys are, spacing / directions / separators kept, text without a further scan unchanged; plus kernel-evaluated instances incl. overlapping names",
